@@ -15,7 +15,7 @@
 #include <stdio.h>
 
 #define VX_MAXALT 48
-#define VX_MAXPTS 400
+#define VX_MAXPTS 800
 #define VX_OBS_MAX (48 * 1024)
 #define VX_MAXFAIL 4
 
@@ -29,6 +29,7 @@ void vx_fail(const char *sig, const char *fmt, ...) __attribute__((format(printf
 void vx_nontrivial(void);
 void vx_outcome(const char *fmt, ...) __attribute__((format(printf, 1, 2)));
 int vx_failed(void);
+void vx_exit_now(void) __attribute__((noreturn));
 int vx_spent(void);              /* deviation units spent so far in this execution */
 int vx_budget_left(void);        /* bound - spent (may be used to avoid offering unaffordable alts) */
 int vx_in_replay(void);
